@@ -19,7 +19,7 @@ def one(name):
             return name, None
         alarms = {}
         for cid in IDS:
-            p = subprocess.run(["/verif/bin/crscheck", "-property", cid, "-repo", tmp], stdout=subprocess.PIPE, stderr=subprocess.STDOUT, env=ENV)
+            p = subprocess.run([os.environ.get("CRS_BIN", "/verif/bin/crscheck"), "-property", cid, "-repo", tmp], stdout=subprocess.PIPE, stderr=subprocess.STDOUT, env=ENV)
             if p.returncode != 0:
                 lines = [l.replace(tmp + "/", "") for l in p.stdout.decode().splitlines() if ("] " in l and " — " in l) or l.startswith("ERROR") or "panic" in l or "fatal error" in l]
                 alarms[cid] = lines[:8] or ["exit %d" % p.returncode]
